@@ -1139,7 +1139,7 @@ impl Engine for DeriveSim {
         Meta {
             engine: "derivesim",
             level: "exploration",
-            rule: "a scenario is one of five derived corpus types (Nest: optional subcommand enum whose variants hold a further optional subcommand, a nested subcommand container variant and a unit variant; Misc: rename_all, explicit id/short/long, default_missing_value, Option<flatten>, required positional, `last` positional Vec; Flat: bool, counter, T, Option<T>, Option<Option<T>>, Vec<T>, Option<Vec<T>>, default_value_t, value_delimiter, ValueEnum with rename/aliases/skip, positional, skip; Tree: global, flatten, required subcommand enum with struct/tuple/unit/nested/external variants, alias; OptSub: multi-value Vec<T> (num_args 1..), Option<Vec<T>> with num_args 0.. (Some(empty)), optional subcommand, trailing positional Vec; Vec<Vec<T>> needs the unstable-v5 feature and is not part of the default surface) plus an initial value and a history of 1-8 operations on ONE value: try_update_from naming a seed-chosen subset of fields (incl. subcommand switches and nested fields), failing updates (parse-phase and extraction-phase faults), parse-equivalence checks, round-trips of generated values, value-enum probes. Non-trivial = >= 2 operations with >= 1 comparison; distinct = distinct scenario hash",
+            rule: "a scenario is one of five derived corpus types (Nest: optional subcommand enum whose variants hold a further optional subcommand, a nested subcommand container variant and a unit variant; Misc: rename_all, explicit id/short/long, default_missing_value, Option<flatten>, required positional, `last` positional Vec; Flat: bool, counter, T, Option<T>, Option<Option<T>>, Vec<T>, Option<Vec<T>>, default_value_t, value_delimiter, ValueEnum with rename/aliases/skip, positional, skip; Tree: global, flatten, required subcommand enum with struct/tuple/unit/nested/external variants, alias; OptSub: multi-value Vec<T> (num_args 1..), Option<Vec<T>> with num_args 0.. (Some(empty)), optional subcommand, trailing positional Vec; Vec<Vec<T>> needs the unstable-v5 feature and is not part of the default surface) plus an initial value and a history of 1-8 operations on ONE value: try_update_from naming a seed-chosen subset of fields (incl. subcommand switches and nested fields), failing updates (parse-phase and extraction-phase faults), parse-equivalence checks, round-trips of generated values, value-enum probes. Non-trivial = >= 2 operations with >= 1 comparison; distinct = distinct scenario hash. Added during the build phase: a flattened child enum, escaped external names, a Box-ed flattened group with a required member, a from_global field, a scalar field over a multi-valued argument, partial updates of the held variant, updates through command_for_update + update_from_arg_matches, from_arg_matches / from_arg_matches_mut",
             real_components: &["clap_derive (Parser, Args, Subcommand, ValueEnum) compiled from /repo", "clap_builder::derive (try_parse_from, try_update_from)", "the builder parser behind them"],
             stub_components: &["hand-written mirrors: value generators, canonical printers, field extraction against the builder API"],
             workload_only_clauses: &["parse-equivalence, field extraction per type shape and round-trip have no history in them; they are evaluated inside the update histories because the update oracle needs them"],
